@@ -11,14 +11,14 @@ from ..common import GLOBAL_TRUSTED_BASE
 from ..model import call_many
 from ..pool import guarded, run_cases
 
-THEOREMS = ["C13_shape_preserved", "C13_one_parameter", "C13_alignment", "C13_defaults_unchanged_partial", "C13_defaults_refuted", "C13_lookup_class_attribute", "C13_lookup_parameter", "C13_lookup_refuted", "C13_lookup_examples"]
+THEOREMS = ["C13_shape_preserved", "C13_one_parameter", "C13_alignment", "C13_defaults_unchanged_partial", "C13_defaults_refuted", "C13_lookup_class_attribute", "C13_lookup_parameter", "C13_lookup_refuted", "C13_lookup_examples", "C13_eval_member_kept", "C13_eval_member_vs_unquote", "C13_eval_member_examples", "C13_eval_member_refuted"]
 CLS = ["Alpha", "Beta", "Gamma"]
 FNS = ["compute", "render", "fetch"]
 ATTRS = ["width", "label", "mode", "ratio", "count"]
 PARAMS = ["a", "b", "c", "d", "e"]
-ANNS = ["int", "str", "float", "Optional[int]", "List[str]", "Literal['x', 'y']"]
+ANNS = ["int", "str", "float", "Optional[int]", "List[str]", "Literal['x', 'y']", "object"]
 VALS = {"int": ["5", "-3"], "str": ["'why'", "'x'"], "float": ["0.0", "2.5"], "Optional[int]": ["None", "7"], "List[str]": ["None"],
-        "Literal['x', 'y']": ["'x'"]}
+        "Literal['x', 'y']": ["'x'"], "object": ["None", "5"]}
 WRAP = "Optional[Union[{output_param}, str]]"
 
 
@@ -69,7 +69,9 @@ def gen_sig(rng, first):
 
 # module-level values for --input-eval and the Literal their evaluation must yield (every member, in order, repeats included)
 EVALS = [("('r', 'w')", "Literal['r', 'w']"), ("(False, True, 0, 1, 2)", "Literal[False, True, 0, 1, 2]"), ("('a', 'a', 'b')", "Literal['a', 'a', 'b']"),
-         ("range(3)", "Literal[0, 1, 2]"), ("[1, 1.0, 2]", "Literal[1, 1.0, 2]"), ("('w', 'r')", "Literal['w', 'r']")]
+         ("range(3)", "Literal[0, 1, 2]"), ("[1, 1.0, 2]", "Literal[1, 1.0, 2]"), ("('w', 'r')", "Literal['w', 'r']"),
+         # strings that consist of quote characters (the SQL empty-string literal), one and two characters long
+         ("('NULL', \"''\", '0')", "Literal['NULL', \"''\", '0']"), ("('\"\"', 'x')", "Literal['\"\"', 'x']"), ("(\"'\", 'q')", "Literal[\"'\", 'q']")]
 
 
 def gen_module(rng, with_eval_source=False):
@@ -297,7 +299,12 @@ def diff_property(c, before, after, repl):
         want = c.get("eval_want", "Literal['r', 'w']")
         if c["wrap"]:
             want = ast.unparse(ast.parse(WRAP.format(output_param=want)).body[0].value)
-        if got_ann.replace('"', "'") != want:
+        def same_expr(a, b):
+            try:
+                return ast.dump(ast.parse(a)) == ast.dump(ast.parse(b))
+            except SyntaxError:
+                return a == b
+        if not same_expr(got_ann, want):
             probs.append(("eval-annotation%s" % ("/wrap" if c["wrap"] else ""), {"want": want, "got": got_ann}))
     return probs
 
@@ -377,6 +384,16 @@ def collect(ctx, n, _unused=0):
                      "output_src": "class K(object):\n    def run(self, steps: int = 1, verbose: bool = False):\n        return 1\n\n"
                                    "    @staticmethod\n    def create(name: str = 'k', size: float = 3.0, depth: int = 2):\n        return 1\n",
                      "input_param": "Cfg.size", "output_param": "K.create.size", "in_kind": "attr", "out_kind": "param", "wrap": False, "eval": False})
+    # corpus: an attribute annotated `object` (what cdd writes for an unknown type) onto a parameter; evaluated collections whose
+    # members are strings made of quote characters
+    cases.insert(2, {"input_src": "class Cfg(object):\n    tfds_dir: object = None\n    width: int = 5\n",
+                     "output_src": "def fetch(a: int, b=1):\n    return 2\n", "input_param": "Cfg.tfds_dir", "output_param": "fetch.a",
+                     "in_kind": "attr", "out_kind": "param", "wrap": False, "eval": False})
+    for k, (ev_src, ev_want) in enumerate(EVALS[-3:]):
+        cases.insert(3, {"input_src": "CHOICES = %s\n\nclass Cfg(object):\n    width: int = 5\n" % ev_src,
+                         "output_src": "from typing import Literal\n\nclass K(object):\n    mode: str = 'x'\n\ndef fetch(a: int, b=1):\n    return 2\n",
+                         "input_param": "CHOICES", "output_param": ("fetch.a", "K.mode", "fetch.b")[k], "in_kind": "eval",
+                         "out_kind": ("param", "attr", "param")[k], "wrap": False, "eval": True, "eval_want": ev_want, "same_file": False})
     agg = {"n": 0, "ran": 0, "raised": 0, "modelled": 0}
     items, corr = [], []
     # the lookup itself (find_in_ast after annotate_ancestry) against Model/FindAst.v: every path of some of the generated modules,
@@ -408,9 +425,22 @@ def run(ctx):
         ctx.item(cls, {"stage": "cdd.compound.sync_properties.sync_properties on generated module pairs", "clause": cls,
                        "input": {k: c[k] for k in ("input_param", "output_param", "wrap", "eval", "input_src", "output_src")} if c else None,
                        "detail": det})
+    # Model/SetValue.v (C13_eval_member_*) against ast_utils.set_value on texts over quotes, letters and blanks
+    QA = ["'", '"', "a", "b", "NULL", " ", "x y", "\\"]
+    strs = ["".join(ctx.rng.choice(QA) for _ in range(ctx.rng.randint(0, 4))) for _ in range(400 if ctx.quick else 8000)] + \
+        ["''", '""', "'", '"', "'a'", '"a"', "'ab\"", "", "'" * 3, '"' * 4]
+    from cdd.shared.ast_utils import set_value as _set_value
+    for s_, m_ in zip(strs, call_many("set_value_text", strs)):
+        try:
+            i_ = _set_value(s_).value
+        except Exception as e:  # noqa
+            i_ = "<raises %s>" % type(e).__name__
+        if i_ != m_:
+            corr.append({"function": "set_value", "input": s_, "impl": i_, "model": m_})
+    agg["set_value_texts"] = len(strs)
     if not ctx.violations:
         if corr:
-            ctx.violation({"stage": "correspondence: Model/Rewrite.v rewrite vs the output file's AST after sync_properties; Model/FindAst.v vs find_in_ast",
+            ctx.violation({"stage": "correspondence: Model/Rewrite.v rewrite vs the output file's AST after sync_properties; Model/FindAst.v vs find_in_ast; Model/SetValue.v vs set_value",
                            "detail": corr[:2],
                            "n_disagreements": len(corr)}, no_input=True)
         elif not status["ok"]:
@@ -428,7 +458,7 @@ def run(ctx):
                 "parameters with and without defaults and keyword-only parameters, unrelated statements) x a valid (input, output) dotted "
                 "path pair x wrap template present/absent x --input-eval; non-trivial = sync_properties ran to completion",
         "completed": agg["ran"], "raised": agg["raised"], "compared_with_model": agg["modelled"], "model_disagreements": len(corr),
-        "lookups_compared_with_model": agg["lookups"], "lookup_result_kinds": agg["lookup_kinds"],
+        "lookups_compared_with_model": agg["lookups"], "set_value_texts_compared_with_model": agg["set_value_texts"], "lookup_result_kinds": agg["lookup_kinds"],
         "traces_validated_against_impl": agg["modelled"] + agg["lookups"],
         "samples": [{k: cases[0][k] for k in ("input_param", "output_param", "wrap", "eval")}, cases[0]["output_src"][:300]],
         "build": {k: status[k] for k in ("build_s", "forbidden")},
